@@ -90,9 +90,21 @@ class DataIndexView(BaseDataIndex):
             if node is not None:
                 key, value = node.build(stack)
                 if key and value:
+                    # NOTE: decided before handing the entry over, the consumer
+                    # might load it (e.g. by listing it) before we are resumed
+                    unloaded = ensure_loaded and self._is_unloaded_dir(value)
                     yield key, value
-                    if ensure_loaded:
+                    if unloaded:
                         yield from self._load_dir_keys(key, value, shallow=shallow)
+
+    @staticmethod
+    def _is_unloaded_dir(entry: Optional[DataIndexEntry]) -> bool:
+        return bool(
+            entry is not None
+            and entry.hash_info
+            and entry.hash_info.isdir
+            and not entry.loaded
+        )
 
     def _load_dir_keys(
         self,
@@ -103,12 +115,7 @@ class DataIndexView(BaseDataIndex):
         # NOTE: traverse() will not enter subtries that have been added
         # in-place during traversal. So for dirs which we load in-place, we
         # need to iterate over the new keys ourselves.
-        if (
-            entry is not None
-            and entry.hash_info
-            and entry.hash_info.isdir
-            and not entry.loaded
-        ):
+        if entry is not None and entry.hash_info and entry.hash_info.isdir:
             self._index._load(prefix, entry)
             if not shallow:
                 for key, val in self._index.iteritems(entry.key):
